@@ -12,6 +12,7 @@ import SecsModel.Props.C07
 #print axioms SecsModel.Props.C07.retry_on_refusal
 #print axioms SecsModel.Props.C07.retry_after_delay
 #print axioms SecsModel.Props.C07.leave_on_loss
+#print axioms SecsModel.Props.C07.link_loss_reaches_handler
 #print axioms SecsModel.Props.C07.reported_only_after_exchange
 #print axioms SecsModel.Props.C07.not_reported_after_loss
 #print axioms SecsModel.Props.C07.no_callback_unless_established
